@@ -248,6 +248,8 @@ package protocol
 //@ func init
 //@   assigns *
 //@   ensures[C10] ready: pkgReady()
+// entries expire and a janitor sweeps them: the eviction callback (closeParked) runs within expiry + interval
+//@   site github.com/patrickmn/go-cache.New requires[C11] janitor: arg0 > 0 && arg1 > 0
 
 // a tunnel whose client never opened the incoming connection expires from the cache: its outgoing connection
 // is closed then (C11: bounded by the cache's expiry and clean-up intervals)
@@ -273,6 +275,7 @@ package protocol
 //@   ensures[C11] registered: Connections != nil && mapHas(Connections, t.Id)
 //@   ensures[C07,C10] released: !held(&connectionsMu)
 //@   site mapupdate requires[C07,C10] locked: held(&connectionsMu)
+//@   site? maplookup requires[C07,C10] lockedRead: held(&connectionsMu)
 //@   nopanic[C10]
 
 //@ func RemoveTunnel
@@ -281,6 +284,7 @@ package protocol
 //@   ensures[C11] removed: !mapHas(Connections, t.Id)
 //@   ensures[C07,C10] released: !held(&connectionsMu)
 //@   site builtin.delete requires[C07,C10] locked: held(&connectionsMu)
+//@   site? maplookup requires[C07,C10] lockedRead: held(&connectionsMu)
 //@   nopanic[C10]
 
 //@ func (*Gateway).handleWebsocketProtocol
